@@ -21,6 +21,7 @@ type specEnv struct {
 	vars       map[string]Val
 	oldVars    map[string]Val
 	cellsFirst bool
+	renaming   bool
 	bound      map[string]T
 	inOld      bool
 	qn         *int
@@ -172,6 +173,13 @@ func (e *specEnv) lookup(name string) Val {
 			case *ssa.Function:
 				return e.ex.prog.funcVal(x, nil)
 			}
+		}
+	}
+	if e.f != nil && !e.renaming {
+		if alias, ok := e.ex.prog.renames[e.f.key][name]; ok && alias != name {
+			e.renaming = true
+			defer func() { e.renaming = false }()
+			return e.lookup(alias)
 		}
 	}
 	e.fail("unknown name %q", name)
